@@ -11,6 +11,7 @@ import AslProofs.XdlNum
 import AslProofs.NumValDefs
 import AslProofs.NumVal
 import AslProofs.FmtShape
+import AslProofs.FmtValue
 /-!
 # C05 — JSON (and XDL) encoding round-trips every Var
 
@@ -155,21 +156,22 @@ theorem float_roundtrip (g : Nat → UInt64 → Bytes) (atof : Bytes → UInt64)
 /-- H2d for the models the driver runs (= for glibc, by the correspondence check): not proved -/
 def double_roundtrip_full : Prop := H2d AslModel.Dtoa.fmtG AslModel.Strtod.atofBits
 
-/-- H1v for the formatter the driver runs (shape AND correct rounding of the printed value).  Proved so far:
-    the shape (`fmtG_H1`) and the rounding core (`fmtG_digits_rounded_partial`); missing: reading the three
-    `%g` layouts back as `n·10^(x-P+1)` (`lexVal (fmtG P b)`). -/
-def fmtG_rounds_full : Prop := H1v AslModel.Dtoa.fmtG
-
 /-- **H1 holds for the formatter the driver runs**: `Dtoa.fmtG P b` is an RFC 8259 number lexeme for every
     precision and every bit pattern (three `%g` layouts, exactly `P` significant digits with a non-zero
     leading digit, stripped zeros, two-digit exponent).  Every theorem of this file that assumes `H1 g`
     therefore applies to the instance compared with glibc on every run. -/
 theorem fmtG_H1 : H1 AslModel.Dtoa.fmtG := fun P b _ => AslProofs.Fmt.fmtG_number P b
 
+/-- **H1v holds for the formatter the driver runs**: the text `Dtoa.fmtG P b` is an RFC 8259 number whose decimal
+    VALUE (`NumVal.lexVal`, over ℚ) is the value of the double (`NumVal.dval`) correctly rounded, half-even, to `P`
+    significant digits — all three `%g` layouts read back exactly.  So the number clause of `encode_in_rfc`
+    ("denotes the same value") is not vacuous: with `g := fmtG`, `encode_number_value` pins the value written. -/
+theorem fmtG_H1v : H1v AslModel.Dtoa.fmtG := AslProofs.Fmt.fmtG_H1v
+
 /-- the rounding core of `fmtG`: the `P` significant digits `n` and decimal exponent `x` it lays out satisfy
     `10^(P-1) ≤ n < 10^P` and `|n·10^(x-P+1) − num/den| ≤ ½·10^(X-P+1)` where `10^X ≤ num/den < 10^(X+1)`
     (`num/den` = the magnitude of the double as `Dtoa.decompose` gives it) — round-half-even, exact over ℚ -/
-theorem fmtG_digits_rounded_partial (P num den : ℕ) (hP : 1 ≤ P) (hn : 0 < num) (hd : 0 < den) :
+theorem fmtG_digits_rounded (P num den : ℕ) (hP : 1 ≤ P) (hn : 0 < num) (hd : 0 < den) :
     10 ^ (P - 1) ≤ (AslModel.Dtoa.sigDigits P num den).1 ∧ (AslModel.Dtoa.sigDigits P num den).1 < 10 ^ P ∧
     ∃ X : ℤ, (10 : ℚ) ^ X ≤ (num : ℚ) / den ∧ (num : ℚ) / den < (10 : ℚ) ^ (X + 1) ∧
       |((AslModel.Dtoa.sigDigits P num den).1 : ℚ) * (10 : ℚ) ^ ((AslModel.Dtoa.sigDigits P num den).2 - P + 1) - (num : ℚ) / den|
